@@ -122,7 +122,12 @@ func run(c mon.Case) mon.Result {
 		return mon.Result{Verdict: mon.Inconclusive, Detail: "dry run fails on a healthy connection: " + d.DryErr + " / " + st.Err}
 	}
 	for attempt := 0; ; attempt++ {
-		r := runOnce(d, sc)
+		var r mon.Result
+		if d.Setting == "late-reader" {
+			r = runLate(d, sc)
+		} else {
+			r = runOnce(d, sc)
+		}
 		if r.Verdict == mon.Inconclusive && strings.HasPrefix(r.Detail, "load:") && attempt < 2 {
 			time.Sleep(200 * time.Millisecond)
 			continue
@@ -371,6 +376,193 @@ func runOnce(d Desc, sc *scen.Scenario) mon.Result {
 			"recovery_checked": recovered, "transport": devsim.Summary(s.Conn.Log())}}
 }
 
+// runLate: setting "late-reader". The first reader goroutine of the operation that arrives at the
+// queue-read yield point within the last 40 ms before the deadline is parked there. The unchanged
+// library's operation waits for its reader, so the harness lets it go after 250 ms and judges the
+// case like any other stall. If the operation returns while its reader is still parked, the device
+// catches up, one follow-up exchange drains what was left, and then the parked reader is let go at
+// the moment the echo of a second follow-up sits in the queue: "a timed-out operation consumes no
+// further device output once it has returned, so that ... the next exchange returns its own result".
+func runLate(d Desc, sc *scen.Scenario) mon.Result {
+	t00 := time.Now()
+	T := tShort
+	s, err := sc.New(devsim.Config{Seg: d.Seg, KeepData: true}, T)
+	if err != nil {
+		return mon.Result{Verdict: mon.Inconclusive, Detail: "constructor: " + err.Error()}
+	}
+	defer s.Conn.Abandon()
+	s.G0().TimeoutOps = 10 * time.Second
+	if err := sc.Pre(s); err != nil {
+		return mon.Result{Verdict: mon.Inconclusive, Detail: "set-up failed on a healthy connection: " + err.Error()}
+	}
+	if !s.Quiesce(5 * time.Second) {
+		return mon.Result{Verdict: mon.Inconclusive, Detail: "set-up: stream not drained"}
+	}
+	s.G0().TimeoutOps = T
+	s.Conn.SetFault(devsim.FaultStall, d.Base+d.K)
+	viol := func(key, f string, a ...interface{}) mon.Result {
+		return mon.Result{Verdict: mon.Violated, Key: key, Detail: fmt.Sprintf("%s setting=%s stall after byte %d of %d: ", d.Scenario, d.Setting, d.K, d.S) + fmt.Sprintf(f, a...),
+			Events: tail(s.Conn.Log(), 40), NonTrivial: true}
+	}
+	var mu sync.Mutex
+	phase := 0 // 0 operation under test, 1 first follow-up, 2 second follow-up
+	var t0 time.Time
+	parkedA, parkedB := false, false
+	relA, relB, arrivedB := make(chan struct{}), make(chan struct{}), make(chan struct{})
+	var onceA, onceB sync.Once
+	releaseA := func() { onceA.Do(func() { close(relA) }) }
+	releaseB := func() { onceB.Do(func() { close(relB) }) }
+	defer releaseA()
+	defer releaseB()
+	yield.Install(func(p string) {
+		if p != "chan.op.read.enter" {
+			return
+		}
+		mu.Lock()
+		switch {
+		case phase == 0 && !parkedA && !t0.IsZero() && time.Since(t0) >= T-40*time.Millisecond:
+			parkedA = true
+			mu.Unlock()
+			<-relA
+			return
+		case phase == 2 && !parkedB:
+			parkedB = true
+			close(arrivedB)
+			mu.Unlock()
+			<-relB
+			return
+		}
+		mu.Unlock()
+	})
+	defer yield.Install(nil)
+	mu.Lock()
+	t0 = time.Now()
+	mu.Unlock()
+	ch := runOp(func() (string, error) { return sc.Op(s) })
+	var r opRes
+	returnedWhileParked := false
+	select {
+	case r = <-ch:
+		mu.Lock()
+		returnedWhileParked = parkedA
+		mu.Unlock()
+	case <-time.After(T + 250*time.Millisecond):
+		releaseA()
+		select {
+		case r = <-ch:
+		case <-time.After(T + 5*time.Second):
+			if mon.LoadedSince(t00) {
+				return mon.Result{Verdict: mon.Inconclusive, Detail: "load: no return, machine loaded"}
+			}
+			return viol("c05/hang:"+d.Scenario, "operation has not returned %s after its parked reader was let go\n%s", T+5*time.Second, libStacks())
+		}
+	}
+	el := r.at.Sub(t0)
+	obs := map[string]int64{"cases": 1, "late_reader_cases": 1}
+	tags := []string{"scenario=" + d.Scenario, "setting=" + d.Setting}
+	if r.pan != nil {
+		return viol("c05/panic-in-caller:"+d.Scenario, "operation panicked: %v", r.pan)
+	}
+	if r.err == nil {
+		// the stall did not bite (k at the very end): nothing more to see here
+		releaseA()
+		if r.res != d.Want {
+			return viol("c05/partial-success:"+d.Scenario, "success reported with a result that is not the complete one\n got: %q\nwant: %q", r.res, d.Want)
+		}
+		return mon.Result{Verdict: mon.Held, Obs: obs, Tags: tags}
+	}
+	if !errors.Is(r.err, util.ErrTimeoutError) {
+		releaseA()
+		return viol("c05/error-class:"+d.Scenario, "expected a timeout error, got %q", r.err)
+	}
+	if el > T+slack+250*time.Millisecond {
+		releaseA()
+		if mon.LoadedSince(t00) {
+			return mon.Result{Verdict: mon.Inconclusive, Detail: fmt.Sprintf("load: returned after %s under load", el)}
+		}
+		return viol("c05/late:"+d.Setting+":"+d.Scenario, "timeout error returned after %s; configured timeout %s", el.Round(time.Millisecond), T)
+	}
+	if !s.AtCommandPrompt() {
+		releaseA()
+		return mon.Result{Verdict: mon.Held, Obs: obs, Tags: append(tags, "recovery=not-applicable(input line not clean)")}
+	}
+	follow := func() (opRes, bool) {
+		select {
+		case lr := <-runOp(func() (string, error) { return sc.Later(s) }):
+			return lr, true
+		case <-time.After(15 * time.Second):
+			return opRes{}, false
+		}
+	}
+	s.G0().TimeoutOps = 5 * time.Second
+	if !returnedWhileParked {
+		// the operation waited for its reader: the ordinary recovery clause
+		obs["operation_waited_for_its_reader"]++
+		s.Conn.Release()
+		lr, ok := follow()
+		if !ok {
+			if mon.LoadedSince(t00) {
+				return mon.Result{Verdict: mon.Inconclusive, Detail: "load: follow-up did not return"}
+			}
+			return viol("c05/recovery-hang:"+d.Scenario, "the exchange after the timed-out one has not returned after 15 s\n%s", libStacks())
+		}
+		if lr.pan != nil || lr.err != nil || lr.res != sc.LaterWant {
+			if lr.err != nil && errors.Is(lr.err, util.ErrTimeoutError) && mon.LoadedSince(t00) {
+				return mon.Result{Verdict: mon.Inconclusive, Detail: "load: follow-up timed out under load"}
+			}
+			return viol("c05/recovery:"+d.Scenario, "after the device caught up the next exchange did not return its own result\n got: %q err=%v pan=%v\nwant: %q", lr.res, lr.err, lr.pan, sc.LaterWant)
+		}
+		obs["recovery_checked"]++
+		return mon.Result{Verdict: mon.Held, NonTrivial: true, Obs: obs, Tags: tags}
+	}
+	// the operation returned although one of its reader goroutines is still parked in front of a
+	// queue read
+	obs["operation_returned_before_its_reader"]++
+	mu.Lock()
+	phase = 1
+	mu.Unlock()
+	s.Conn.Release()
+	lr, ok := follow()
+	if !ok || lr.pan != nil || lr.err != nil || lr.res != sc.LaterWant {
+		releaseA()
+		if mon.LoadedSince(t00) {
+			return mon.Result{Verdict: mon.Inconclusive, Detail: "load: first follow-up failed under load"}
+		}
+		return viol("c05/recovery:"+d.Scenario, "after the device caught up the next exchange did not return its own result\n got: %q err=%v\nwant: %q", lr.res, lr.err, sc.LaterWant)
+	}
+	mu.Lock()
+	phase = 2
+	mu.Unlock()
+	ch2 := runOp(func() (string, error) { return sc.Later(s) })
+	select {
+	case <-arrivedB:
+	case <-time.After(3 * time.Second):
+		releaseA()
+		releaseB()
+		return mon.Result{Verdict: mon.Inconclusive, Detail: "second follow-up never reached its first queue read"}
+	}
+	s.Quiesce(2 * time.Second)
+	time.Sleep(5 * time.Millisecond) // let the read loop queue the echo
+	releaseA()
+	time.Sleep(20 * time.Millisecond) // the reader of the returned operation does what it does
+	releaseB()
+	var lr2 opRes
+	select {
+	case lr2 = <-ch2:
+	case <-time.After(15 * time.Second):
+		if mon.LoadedSince(t00) {
+			return mon.Result{Verdict: mon.Inconclusive, Detail: "load: second follow-up did not return"}
+		}
+		return viol("c05/recovery-hang:"+d.Scenario, "second follow-up has not returned after 15 s\n%s", libStacks())
+	}
+	if lr2.pan != nil || lr2.err != nil || lr2.res != sc.LaterWant {
+		return viol("c05/recovery:"+d.Scenario, "the timed-out operation returned while a reader goroutine of it was still alive; that reader then consumed device output of a later exchange, which did not return its own result\n got: %q err=%v\nwant: %q",
+			lr2.res, lr2.err, sc.LaterWant)
+	}
+	obs["recovery_checked"]++
+	return mon.Result{Verdict: mon.Held, NonTrivial: true, Obs: obs, Tags: append(tags, "late-reader=returned-before-reader-but-harmless")}
+}
+
 func bucket(d time.Duration) string {
 	switch {
 	case d < 20*time.Millisecond:
@@ -437,8 +629,12 @@ func gen(tier string, seed int64) []mon.Case {
 		if tier != "thorough" && !sc.Quick {
 			continue
 		}
-		for si, seg := range segs {
-			for k := 0; k <= st.S; k++ {
+		scSegs := segs
+		if sc.Seg != nil {
+			scSegs = []devsim.Seg{*sc.Seg}
+		}
+		for si, seg := range scSegs {
+			for _, k := range sc.Ks(st.S) {
 				add(Desc{Scenario: sc.Name, K: k, Setting: "conn", Seg: seg, Base: st.Base, S: st.S, Want: st.Want, CmdAt: st.CmdAt})
 				if sc.PerOp && (tier == "thorough" || k%2 == 0) {
 					add(Desc{Scenario: sc.Name, K: k, Setting: "perop", Seg: seg, Base: st.Base, S: st.S, Want: st.Want})
@@ -463,7 +659,22 @@ func gen(tier string, seed int64) []mon.Case {
 					}
 				}
 			}
-			if si == 0 && sc.Pre != nil && sc.SingleDeadline && st.S >= 30 && (tier == "thorough" || sc.Quick) {
+			if si == 0 && yield.Available && sc.Pre != nil && sc.Driver != "netconf" && sc.Later != nil && sc.KStep <= 1 &&
+				(sc.Name == "g.sendcommand" || sc.Name == "g.getprompt" || sc.Name == "g.interactive" || (tier == "thorough" && (sc.Name == "g.sendcommands" || sc.Name == "n.sendcommand-at-default"))) {
+				// the operation's reader is parked (yield point) just before the deadline: does the
+				// operation return without it, and does that reader later take bytes of another exchange?
+				ks := []int{st.S / 2, st.S - 1}
+				if tier == "thorough" {
+					ks = append(ks, st.S/3, st.S*2/3, st.S-3)
+				}
+				for _, k := range ks {
+					for rep := 0; rep < 2; rep++ {
+						add(Desc{Scenario: sc.Name, K: k, Setting: "late-reader", Seg: devsim.Seg{Mode: seg.Mode, Size: seg.Size, Seed: seg.Seed + int64(rep)},
+							Base: st.Base, S: st.S, Want: st.Want, CmdAt: st.CmdAt})
+					}
+				}
+			}
+			if si == 0 && sc.Pre != nil && sc.SingleDeadline && sc.KStep <= 1 && st.S >= 30 && (tier == "thorough" || sc.Quick) {
 				// slow-then-silent device: the deadline must run from the start of the operation, not
 				// restart with every step of a multi-step exchange
 				pairs := [][2]int{{st.S * 3 / 10, st.S * 8 / 10}, {st.S / 2, st.S * 9 / 10}}
@@ -506,7 +717,7 @@ func init() {
 		Rule: "For every listed operation scenario the full exchange stream S is measured by a fault-free dry run; then for EVERY k in [0,|S|] a fresh session's device " +
 			"goes silent after byte k under the connection-wide timeout (and the per-operation override where the operation accepts one); precedence is decided by outcome " +
 			"(per-op longer than connection-wide with a device that resumes; zero = maximum); a slow-then-silent device (pause 3 s at k, silent after k2, timeout 4 s) checks that the " +
-			"deadline runs from the start of the operation; a goroutine held at a yield point past the deadline checks the expiry race. Recovery is judged when the device sits at a clean command prompt (CLI) or for NETCONF. " +
+			"deadline runs from the start of the operation; a goroutine held at a yield point past the deadline checks the expiry race; a reader parked just before the deadline and let go when a LATER exchange's echo is queued checks that a returned operation consumes nothing more. Recovery is judged when the device sits at a clean command prompt (CLI) or for NETCONF. " +
 			"Non-trivial = 0<k<|S|. Distinct = (scenario, setting, k, segmentation).",
 		Assumptions: []string{
 			"the stall is modelled at the transport boundary: devsim.Conn delivers exactly k bytes of the exchange and then blocks reads; the device itself has produced its whole reaction",
